@@ -425,6 +425,17 @@ Proof.
   rewrite (Hs i E) in Hout. discriminate.
 Qed.
 
+(** a request extending past the window is refused with OutOfBounds and transfers nothing *)
+Theorem view_oob_rejected_thm : forall B a v cnt off gen,
+  view_check_wraps B = false -> view_ok a v -> all_u64 cnt -> all_u64 off -> same_rank v cnt off ->
+  inside_window v cnt off = false ->
+  view_read B v a cnt off = Err oob /\ view_write B v a cnt off gen = Err oob.
+Proof.
+  intros B a v cnt off gen HB OK Uc Uo SR Hout. split.
+  - exact (proj2 (view_read_outside B a v cnt off HB OK Uc Uo Hout) SR).
+  - exact (proj2 (view_write_outside B a v cnt off gen HB OK Uc Uo Hout) SR).
+Qed.
+
 (** a refused write changes nothing: the model has no new array to offer (the drivers keep the old one) *)
 
 (** * The pinned code: computed counterexamples (DESIGN.md section 9, item 20) *)
